@@ -112,7 +112,7 @@ func (e *mkrsendEnv) addr(s string) sdk.AccAddress {
 // Order matters (first match wins).
 var mkrsendErrTable = []struct{ all []string; class string }{
 	{[]string{"cannot send restricted denom", "to the fee collector"}, "fc_bypass"},
-	{[]string{"is not a marker account"}, "notmarker"},
+	{[]string{"is not a marker account"}, "notmarker"}, // only the code before ed45788f3 could return this
 	{[]string{"cannot withdraw from marker account"}, "withdraw_noagent"},
 	{[]string{"ACCESS_WITHDRAW"}, "withdraw"},
 	{[]string{"cannot withdraw", "marker status"}, "from_status"},
